@@ -968,6 +968,27 @@ def nested_tag_cases():
     return out
 
 
+def colon_description_cases():
+    """Descriptions of ANNOTATED parameters / Returns that begin with a colon (GTK-Doc markup ':prop',
+    '::signal', or a plain ':'): exactly one ':' delimits the annotation field, everything after it (minus
+    surrounding blanks) is the description.  -> [(content lines, expected abstract view)]"""
+    out = []
+    for d in ('::changed handler', ':prop text', ': text', ':', ':: :x', ':::', ':a:b: c'):
+        for gap in (' ', '  ', ''):
+            for anns, view in (('(nullable)', [['nullable', None]]),
+                               ('(transfer none) (nullable)', [['transfer', ['list', ['none']]], ['nullable', None]])):
+                out.append((['foo_bar:', '@p: %s:%s%s' % (anns, gap, d), '', 'Does things.'],
+                            {'name': 'foo_bar', 'ann': [], 'params': [['p', view, d]], 'desc': 'Does things.',
+                             'tags': []}))
+                out.append((['foo_bar:', '', 'Does things.', '', 'Returns: %s:%s%s' % (anns, gap, d)],
+                            {'name': 'foo_bar', 'ann': [], 'params': [], 'desc': 'Does things.',
+                             'tags': [['returns', view, None, d]]}))
+                # annotations continued on the following line, description after them
+                out.append((['foo_bar:', '@p:', '  %s:%s%s' % (anns, gap, d)],
+                            {'name': 'foo_bar', 'ann': [], 'params': [['p', view, d]], 'desc': None, 'tags': []}))
+    return out
+
+
 def stability_blocks():
     """Stability: values in canonical / lower / upper / mixed case, with and without a description.
     gtkdoc.rst lists the values as Stable, Unstable, Private (capitalised); how another spelling is stored is
